@@ -12,7 +12,11 @@ void __vf_thread_exit(int t);
 int __vf_self(void);
 void vf_thread(int t);                           // body of the pre-started harness threads 0..__vf_prestart()-1
 int __vf_prestart(void);
-#ifndef VF_NATIVE
+#if !defined(VF_NATIVE) && defined(VF_SPLIT_ENTRY)
+// split roots (ll2c generates the dispatch on the constant thread number): pre-started harness threads / threads created at run time
+void __vf_thread_entry(int t) { vf_thread(t); __vf_thread_exit(t); }
+void __vf_thread_entry_dyn(int t) { void (*fn)(void *) = __vf_thread_fn(t); fn(__vf_thread_arg(t)); __vf_thread_exit(t); }
+#elif !defined(VF_NATIVE)
 // root of every sequentialised thread
 void __vf_thread_entry(int t) {
   if (t < __vf_prestart()) vf_thread(t);
